@@ -23,6 +23,7 @@ Fixpoint idx_ {A} (k : nat) (l : list A) : list (nat * A) := match l with [] => 
 Definition memn (j : nat) (l : list nat) : bool := existsb (Nat.eqb j) l.
 '''
 PRE_TAIL = '''
+Definition NM : list text := NAMES_HERE.
 Definition VI := idx_ 0%nat V.
 Definition TI := idx_ 0%nat T.
 (* row i of a relation on values: the implementation said "true" exactly at the listed column indices *)
@@ -41,6 +42,10 @@ Definition ChkStrRow (i : nat) (tr : list nat) : bool :=
   match nth_error V i with Some x => forallb (fun p => Bool.eqb (eq_str x (snd p)) (memn (fst p) tr)) TI | None => false end.
 Definition ChkClear (names : list text) (i : nat) (e : cat) : bool :=
   match nth_error V i with Some x => cat_eqb (clear_features names x) e | None => false end.
+(* the same with the names given by their numbers in NM and the result by its number in V *)
+Definition names_of (ks : list nat) : list text := flat_map (fun k => match nth_error NM k with Some t => [t] | None => [] end) ks.
+Definition ChkClearI (ks : list nat) (i j : nat) : bool :=
+  match nth_error V i, nth_error V j with Some x, Some e => Nat.eqb (length (names_of ks)) (length ks) && cat_eqb (clear_features (names_of ks) x) e | _, _ => false end.
 '''
 
 
@@ -315,6 +320,9 @@ def run(ctx):
     ctx.count('triples_checked_for_transitivity', n * n * n)
 
     # ------------------------------------------------------------------ sets and dicts keyed by categories
+    first = {}
+    for i, fl in enumerate(F):
+        first.setdefault(fl, i)
     half = [i for i in range(n) if i % 2 == 0]          # store every other value; look up all of them
     stored = {}
     for i in half:
@@ -404,7 +412,11 @@ def run(ctx):
             except Exception as e:      # noqa
                 ctx.fail('clear_raises', f'{str(x)!r}.clear_features{tuple(names)} (applied twice) raised {type(e).__name__}: {e}', data)
                 continue
-            cases.append(f'ChkClear {lits(names)} {i}%nat {gcat(r)}')
+            j = first.get(fields(r))
+            if j is None:
+                cases.append(f'ChkClear {lits(names)} {i}%nat {gcat(r)}')
+            else:
+                cases.append(f'ChkClearI {glist([NAMES.index(nm) for nm in names], lambda k: str(k) + "%nat")} {i}%nat {j}%nat')
             descr.append(('clear', str(x), names, str(r)))
             hit = [named_py(a.feature, names) for a in ax]
             ctx.case(('clear', before, tuple(names)), nontrivial=any(hit))
@@ -429,7 +441,7 @@ def run(ctx):
     # the two tables are compiled once (in parallel) and loaded by every shard
     ok = compile_tables(ctx, {'TabV': TAB_HEAD + f'Definition V : list cat := {glist(V, gcat)}.\n',
                               'TabT': TAB_HEAD + f'Definition T : list text := {lits(T)}.\n'})
-    bad = ctx.coq_cases('values', PRE_HEAD + PRE_TAIL, cases, chunk=300, describe=lambda i: descr[i]) if ok else None
+    bad = ctx.coq_cases('values', PRE_HEAD + PRE_TAIL.replace('NAMES_HERE', lits(NAMES)), cases, chunk=600, describe=lambda i: descr[i]) if ok else None
     for i in (bad or [])[:10]:
         ctx.notes.append(f'model/implementation disagreement on {descr[i]!r}')
     ctx.sample({'eq_row': descr[0]})
@@ -449,3 +461,48 @@ def run(ctx):
         assumptions=['feature names given to clear_features are texts Feature.parse accepts (a name with both = and , must be three k=v pairs; otherwise Python raises TypeError and the model says "no match")',
                      'hash coherence is proved for every str/None/tuple hash; the theorems do not say that different values hash differently',
                      'C13_eq_str_unique needs the wf domain of C05 (names free of []()/\\|<> and blanks, ...): outside it two different values can print the same text'])
+
+
+# ---------------------------------------------------------------------------------------------------------------
+def _from_fields(fl):
+    if fl[0] == 'A':
+        f = fl[2]
+        feat = UnaryFeature(f[1]) if f[0] == 'U' else TernaryFeature(*[tuple(kv) for kv in f[1:]])
+        return Atom(fl[1], feat)
+    return Functor(_from_fields(fl[1]), fl[2], _from_fields(fl[3]))
+
+
+def replay(data):
+    """re-execute the failing inputs of a replay file against the implementation and print what it does now"""
+    import ast
+    rc = 0
+    for f in data.get('failures', []):
+        d = f.get('data') or {}
+        print(f"[{f.get('kind')}] {f.get('desc', '')[:300]}")
+        try:
+            x = _from_fields(ast.literal_eval(d['x'])) if 'x' in d else (Category.parse(d['x_text']) if 'x_text' in d else None)
+            y = _from_fields(ast.literal_eval(d['y'])) if 'y' in d else (Category.parse(d['y_text']) if 'y_text' in d else None)
+        except Exception as e:      # noqa
+            print(f'   cannot rebuild the values: {type(e).__name__}: {e}')
+            rc = 1
+            continue
+        if x is not None and y is not None:
+            print(f'   x = {str(x)!r}  y = {str(y)!r}  fields equal: {fields(x) == fields(y)}  x == y: {tf(lambda: x == y)}  x != y: {tf(lambda: x != y)}  '
+                  f'x ^ y: {tf(lambda: x ^ y)}  skeletons equal: {skel(x) == skel(y)}  hash(x) == hash(y): {hv(x) == hv(y)}')
+        elif x is not None:
+            x2 = rebuild(x)
+            print(f'   x = {str(x)!r}  rebuilt copy: == {tf(lambda: x == x2)}  hashes {hv(x)} {hv(x2)}  in set: {tf(lambda: x2 in {x})}  dict: {tf(lambda: {x: 1}.get(x2) == 1)}')
+            if 'text' in d:
+                print(f"   x == {d['text']!r}: {tf(lambda: x == d['text'])}   own text: {str(x)!r}")
+            if 'names' in d:
+                try:
+                    r = x.clear_features(*d['names'])
+                    print(f"   x.clear_features{tuple(d['names'])} = {str(r)!r}; again = {str(r.clear_features(*d['names']))!r}")
+                except Exception as e:      # noqa
+                    print(f'   clear_features raised {type(e).__name__}: {e}')
+        elif 'text' in d:
+            print(f"   Category.parse({d['text']!r}) twice: {tf(lambda: Category.parse(d['text']) == Category.parse(d['text']))}")
+        rc = 1
+    for b in data.get('broken_obligations', []):
+        print('broken obligation:', (b.get('name') if isinstance(b, dict) else b[0]))
+    return rc
